@@ -690,15 +690,18 @@ def run_small(env, rep, impl):
         try:
             nib, ext = w_ext(v)
             out = "%d %s" % (nib, hx(ext))
-        except ValueError:
-            out = "err"
+        except Exception as e:
+            out = "err" if type(e) is ValueError else "err:other:" + type(e).__name__
         add({"kind": "ext-w", "v": v}, "C01 ext w %d" % v, out)
-        rep.count("ext-w:" + ("err" if out == "err" else "nibble=%s" % out.split()[0] if int(out.split()[0]) > 12 else "direct"))
-        if out != "err":
+        rep.count("ext-w:" + (out if out.startswith("err") else "nibble=%s" % out.split()[0] if int(out.split()[0]) > 12 else "direct"))
+        if not out.startswith("err"):
             # oracle: what was written must read back as v (RFC 7252 section 3.1)
-            rv, rest = r_ext(nib, ext + b"\x99")
+            try:
+                rv, rest = r_ext(nib, ext + b"\x99")
+            except Exception as e:
+                rv, rest = "exception " + type(e).__name__, b""
             if (rv, rest) != (v, b"\x99"):
-                rep.oracle_fail({"kind": "ext-w", "v": v}, "extended field %d written as (%d,%s) reads back as %d"
+                rep.oracle_fail({"kind": "ext-w", "v": v}, "extended field %d written as (%d,%s) reads back as %s"
                                 % (v, nib, ext.hex(), rv), key="ext-roundtrip")
         elif v <= MAX_EXT:
             rep.oracle_fail({"kind": "ext-w", "v": v},
@@ -712,6 +715,8 @@ def run_small(env, rep, impl):
                 out = "%d %s" % (v, hx(rest))
             except impl.error.UnparsableMessage:
                 out = "err"
+            except Exception as e:
+                out = "err:other:" + type(e).__name__
             add({"kind": "ext-r", "nib": nib, "hex": raw.hex()}, "C01 ext r %d %s" % (nib, hx(raw)), out)
             rep.count("ext-r:" + ("err" if out == "err" else "ok"))
     for n in sorted(set(range(0, 2101)) | set(impl.named) | {65535, 65536, 65804, 100000, 200000}):
@@ -847,7 +852,7 @@ def replay(env, case):
             v = case["v"]
             try:
                 nib, ext = impl.options_mod._write_extended_field_value(v)
-            except ValueError:
+            except Exception:
                 return ("_write_extended_field_value(%d) raises although the 16-bit form covers 269..65804" % v
                         if v <= MAX_EXT else "")
             rv, rest = impl.options_mod._read_extended_field_value(nib, ext + b"\x99")
